@@ -36,6 +36,100 @@ func bigMutates(full string) bool {
 	return true
 }
 
+// readOnlyUse reports whether every use of pointer value v (an address derived from a global)
+// only reads through it. seen guards phi cycles.
+func readOnlyUse(v ssa.Value, seen map[ssa.Value]bool) (bool, string) {
+	if seen[v] {
+		return true, ""
+	}
+	seen[v] = true
+	refs := v.Referrers()
+	if refs == nil {
+		return true, ""
+	}
+	for _, ref := range *refs {
+		switch r := ref.(type) {
+		case *ssa.DebugRef:
+		case *ssa.UnOp:
+			// load: the loaded value is a copy unless it is itself a pointer (e.g. *big.Int global)
+			if _, isPtr := r.Type().Underlying().(*types.Pointer); isPtr {
+				if ok, why := readOnlyPtrValue(r); !ok {
+					return false, why
+				}
+			}
+		case *ssa.Phi:
+			if ok, why := readOnlyUse(r, seen); !ok {
+				return false, why
+			}
+		case *ssa.FieldAddr:
+			if ok, why := readOnlyUse(r, seen); !ok {
+				return false, why
+			}
+		case *ssa.IndexAddr:
+			if ok, why := readOnlyUse(r, seen); !ok {
+				return false, why
+			}
+		case *ssa.BinOp, *ssa.If:
+		case *ssa.Store:
+			if r.Addr == v {
+				return false, fmt.Sprintf("written in %s", r.Parent().Name())
+			}
+			return false, fmt.Sprintf("address stored in %s", r.Parent().Name())
+		case *ssa.Call:
+			callee := r.Common().StaticCallee()
+			if callee == nil {
+				return false, fmt.Sprintf("passed to a dynamic call in %s", r.Parent().Name())
+			}
+			full := callee.String()
+			switch {
+			case strings.HasPrefix(full, "(*github.com/btcsuite/btcd/chainhash/v2.Hash).IsEqual"),
+				strings.HasPrefix(full, "(*github.com/btcsuite/btcd/chainhash/v2.Hash).String"),
+				strings.HasPrefix(full, "(github.com/btcsuite/btcd/chainhash/v2.Hash).String"):
+			default:
+				return false, fmt.Sprintf("address passed to %s in %s", full, r.Parent().Name())
+			}
+		default:
+			return false, fmt.Sprintf("address used by %T in %s", ref, ref.Parent().Name())
+		}
+	}
+	return true, ""
+}
+
+// readOnlyPtrValue: a pointer loaded from a global (e.g. a *big.Int) may only be passed where it is not written.
+func readOnlyPtrValue(ld *ssa.UnOp) (bool, string) {
+	refs := ld.Referrers()
+	if refs == nil {
+		return true, ""
+	}
+	for _, ref := range *refs {
+		switch r := ref.(type) {
+		case *ssa.DebugRef, *ssa.BinOp, *ssa.If:
+		case *ssa.Call:
+			c := r.Common()
+			callee := c.StaticCallee()
+			if callee == nil {
+				return false, fmt.Sprintf("value passed to a dynamic call in %s", r.Parent().Name())
+			}
+			full := callee.String()
+			for ai, a := range c.Args {
+				if a != ssa.Value(ld) {
+					continue
+				}
+				if strings.HasPrefix(full, "(*math/big.Int).") {
+					if ai == 0 && bigMutates(full) {
+						return false, fmt.Sprintf("receiver of mutating %s in %s", full, r.Parent().Name())
+					}
+					continue
+				}
+				return false, fmt.Sprintf("pointer passed to %s in %s", full, r.Parent().Name())
+			}
+		default:
+			return false, fmt.Sprintf("pointer escapes via %T in %s", ref, ref.Parent().Name())
+		}
+	}
+	return true, ""
+}
+
 func globalsNotFinal(pi *PkgInfo) []string {
 	var bad []string
 	if pi.Contracts == nil || pi.SSA == nil {
@@ -45,77 +139,46 @@ func globalsNotFinal(pi *PkgInfo) []string {
 	for _, gi := range pi.Contracts.GlobalInvs {
 		ceIdents(gi.Expr, names)
 	}
-	globals := map[*ssa.Global]bool{}
-	for n := range names {
-		if g := pi.SSA.Var(n); g != nil {
-			globals[g] = true
-		}
-	}
-	if len(globals) == 0 {
-		return nil
-	}
-	for fn := range ssautil.AllFunctions(pi.SSA.Prog) {
-		f := fn
-		for f.Parent() != nil {
-			f = f.Parent()
-		}
-		if f.Pkg != pi.SSA {
+	for _, n := range sortedKeys(names) {
+		g := pi.SSA.Var(n)
+		if g == nil {
 			continue
 		}
-		if fn.Name() == "init" && fn.Synthetic != "" {
-			continue
-		}
-		for _, b := range fn.Blocks {
-			for _, ins := range b.Instrs {
-				// direct uses of the global's address
-				for _, op := range ins.Operands(nil) {
-					g, ok := (*op).(*ssa.Global)
-					if !ok || !globals[g] {
-						continue
-					}
-					ld, isLoad := ins.(*ssa.UnOp)
-					if !isLoad {
-						bad = append(bad, fmt.Sprintf("global %s: address used by %T in %s", g.Name(), ins, fn.Name()))
-						continue
-					}
-					// uses of the loaded value
-					for _, ref := range *ld.Referrers() {
-						switch r := ref.(type) {
+		// uses inside the package initialiser are the initialisation itself
+		refs := g.Referrers()
+		_ = refs
+		// ssa.Global has no referrer list: scan the package
+		for fn := range ssautil.AllFunctions(pi.SSA.Prog) {
+			f := fn
+			for f.Parent() != nil {
+				f = f.Parent()
+			}
+			if f.Pkg != pi.SSA || (fn.Name() == "init" && fn.Synthetic != "") {
+				continue
+			}
+			for _, b := range fn.Blocks {
+				for _, ins := range b.Instrs {
+					for _, op := range ins.Operands(nil) {
+						if *op != ssa.Value(g) {
+							continue
+						}
+						switch i := ins.(type) {
 						case *ssa.DebugRef:
-						case *ssa.Call:
-							c := r.Common()
-							callee := c.StaticCallee()
-							if callee == nil {
-								bad = append(bad, fmt.Sprintf("global %s: value passed to a dynamic call in %s", g.Name(), fn.Name()))
-								continue
-							}
-							full := callee.String()
-							for ai, a := range c.Args {
-								if a != ld {
-									continue
-								}
-								if _, isPtr := a.Type().Underlying().(*types.Pointer); !isPtr {
-									continue // passed by value
-								}
-								if strings.HasPrefix(full, "(*math/big.Int).") {
-									if ai == 0 && bigMutates(full) {
-										bad = append(bad, fmt.Sprintf("global %s: receiver of mutating %s in %s", g.Name(), full, fn.Name()))
-									}
-									continue
-								}
-								bad = append(bad, fmt.Sprintf("global %s: pointer passed to %s in %s", g.Name(), full, fn.Name()))
-							}
-						case *ssa.BinOp, *ssa.Phi, *ssa.If:
-							// comparisons are harmless; a phi may forward the pointer: be conservative
-							if _, isPhi := r.(*ssa.Phi); isPhi {
-								if _, isPtr := ld.Type().Underlying().(*types.Pointer); isPtr {
-									bad = append(bad, fmt.Sprintf("global %s: pointer flows through a phi in %s", g.Name(), fn.Name()))
+						case *ssa.UnOp:
+							if _, isPtr := i.Type().Underlying().(*types.Pointer); isPtr {
+								if ok, why := readOnlyPtrValue(i); !ok {
+									bad = append(bad, fmt.Sprintf("global %s: %s", n, why))
 								}
 							}
-						case *ssa.Return, *ssa.Store, *ssa.MakeInterface, *ssa.MapUpdate, *ssa.Send:
-							if _, isPtr := ld.Type().Underlying().(*types.Pointer); isPtr {
-								bad = append(bad, fmt.Sprintf("global %s: pointer escapes via %T in %s", g.Name(), r, fn.Name()))
+						case *ssa.Store:
+							bad = append(bad, fmt.Sprintf("global %s: written in %s", n, fn.Name()))
+						case *ssa.Phi, *ssa.FieldAddr, *ssa.IndexAddr:
+							if ok, why := readOnlyUse(i.(ssa.Value), map[ssa.Value]bool{}); !ok {
+								bad = append(bad, fmt.Sprintf("global %s: %s", n, why))
 							}
+						case *ssa.BinOp, *ssa.If:
+						default:
+							bad = append(bad, fmt.Sprintf("global %s: address used by %T in %s", n, ins, fn.Name()))
 						}
 					}
 				}
